@@ -99,6 +99,7 @@ def main():
     # (4) streams and oracles
     ctx = {"tier": tier, "seed": seed, "rep": rep, "have_impl": okh, "have_model": okr, "replay": a.replay,
            "proofs_ok": ok}
+    rep.is_replay = bool(a.replay)
     try:
         if okh:
             mod.run(ctx)
